@@ -4,5 +4,5 @@
 HERE="$(cd "$(dirname "$0")/.." && pwd)"
 cd "$HERE"
 IDS="$*"; [ -z "$IDS" ] && IDS="$(ls seeded | grep -E '^C[0-9]+-[0-9]+$')"
-echo "$IDS" | tr ' ' '\n' | xargs -P ${SEED_PAR:-4} -I{} sh -c 'p=$(echo {} | cut -d- -f1); tools/seed_confirm.sh "'$HERE'/seeded/{}" - $p $p > /dev/null 2>&1'
+echo "$IDS" | tr ' ' '\n' | xargs -P ${SEED_PAR:-4} -I{} sh -c 'p=$(echo {} | cut -d- -f1); extra=$(cat "'$HERE'/seeded/{}/also_checks.txt" 2>/dev/null); tools/seed_confirm.sh "'$HERE'/seeded/{}" - $p $p $extra > /dev/null 2>&1'
 /venv/bin/python tools/seed_summary.py
